@@ -225,12 +225,21 @@ func verifyCertificateSignature(
 
 	switch pubKey := certificate.PublicKey.(type) {
 	case ed25519.PublicKey:
+		if signatureAlgorithm != signature.Ed25519 {
+			return dtlserrors.ErrInvalidSignatureAlgorithm
+		}
 		if ok := ed25519.Verify(pubKey, message, remoteKeySignature); !ok {
 			return dtlserrors.ErrKeySignatureMismatch
 		}
 
 		return nil
 	case *ecdsa.PublicKey:
+		// The scheme must fit the key: an ECDSA key verifies ECDSA signatures over a real digest only.
+		// (A scheme without a digest, such as Ed25519, would make ecdsa.Verify run over an empty hash,
+		// for which signatures can be forged without the private key.)
+		if signatureAlgorithm != signature.ECDSA || hashAlgorithm.CryptoHash() == 0 {
+			return dtlserrors.ErrInvalidSignatureAlgorithm
+		}
 		ecdsaSig := &ecdsaSignature{}
 		if _, err := asn1.Unmarshal(remoteKeySignature, ecdsaSig); err != nil {
 			return err
@@ -245,6 +254,9 @@ func verifyCertificateSignature(
 
 		return nil
 	case *rsa.PublicKey:
+		if (signatureAlgorithm != signature.RSA && !signatureAlgorithm.IsPSS()) || hashAlgorithm.CryptoHash() == 0 {
+			return dtlserrors.ErrInvalidSignatureAlgorithm
+		}
 		hashed := hashAlgorithm.Digest(message)
 
 		// Use RSA-PSS verification if the signature algorithm is PSS
